@@ -77,7 +77,14 @@ def replay(pid, rp, run_script_stream):
 # ---------------- C17: the two clients side by side ----------------
 def norm_obs(ob):
     o = {k: v for k, v in ob.items() if k not in ('state', 'panic', 'resolved_esk')}
-    return json.loads(json.dumps(o, sort_keys=True))
+    o = json.loads(json.dumps(o, sort_keys=True))
+    # logically equal: no item and an empty item; index descriptions come in Go map order
+    if o.get('item') == {}:
+        del o['item']
+    if isinstance(o.get('desc'), dict):
+        for k in ('gsi', 'lsi'):
+            o['desc'][k] = sorted(o['desc'].get(k) or [], key=lambda x: x['name'])
+    return o
 
 
 def canon_json(x):
